@@ -28,16 +28,34 @@ def strip_comments(src):
     return "".join(out)
 
 
-def source_audit():
+def module_closure(mods):
+    """transitive closure of `import Anysystem.*` starting from the given modules"""
+    seen, todo = set(), list(mods)
+    while todo:
+        m = todo.pop()
+        if m in seen or not m.startswith("Anysystem"):
+            continue
+        seen.add(m)
+        path = os.path.join(LEAN, *m.split(".")) + ".lean"
+        if os.path.exists(path):
+            for line in open(path):
+                mm = re.match(r"\s*import\s+(\S+)", line)
+                if mm:
+                    todo.append(mm.group(1))
+    return sorted(seen)
+
+
+def source_audit(mods):
     bad = []
-    for base, _, files in os.walk(os.path.join(LEAN, "Anysystem")):
-        for fn in files:
-            if fn.endswith(".lean"):
-                p = os.path.join(base, fn)
-                code = strip_comments(open(p).read())
-                for n, line in enumerate(code.splitlines(), 1):
-                    if FORBIDDEN.search(line):
-                        bad.append(f"{p}: {line.strip()[:120]}")
+    for m in module_closure(mods):
+        p = os.path.join(LEAN, *m.split(".")) + ".lean"
+        if not os.path.exists(p):
+            bad.append(f"{p}: missing")
+            continue
+        code = strip_comments(open(p).read())
+        for n, line in enumerate(code.splitlines(), 1):
+            if FORBIDDEN.search(line):
+                bad.append(f"{p}: {line.strip()[:120]}")
     return bad
 
 
@@ -55,7 +73,7 @@ def lean_check(pid, thorough=False):
         return res
     if "declaration uses 'sorry'" in p.stdout + p.stderr:
         res["failures"].append("build reports a sorry")
-    bad = source_audit()
+    bad = source_audit(mods)
     if bad:
         res["failures"].append("forbidden tokens in Lean sources: " + "; ".join(bad[:5]))
     os.makedirs(os.path.join(LEAN, "Audit"), exist_ok=True)
